@@ -1155,8 +1155,11 @@ func (i *Interp) forIn(n *ast.Node) {
 	case KArr:
 		elems := append([]*Loc{}, it.A.E...)
 		for idx, e := range elems {
-			if len(it.A.E) != len(elems) {
-				un("iterated array changed length inside the loop")
+			// "visits every element exactly once in order": the elements are those the array had
+			// when the loop began, also when the body removes some of them meanwhile. Whether
+			// elements the body ADDS are visited as well is not decided by that sentence.
+			if len(it.A.E) > len(elems) {
+				un("iterated array grew inside the loop")
 			}
 			if w != nil {
 				i.set(w, Num(float64(idx)))
